@@ -159,12 +159,13 @@ Build(s, rs, main, procs, repl, fault) ==
 RelevantRules(s) == UNION {{s[o].kind, IF s[o].parent = 0 THEN s[o].kind
                                        ELSE CarrierMeta[s[s[o].parent].kind][SlotIndex(s[s[o].parent].kind, s[o].slot)].decl}
                              : o \in 1..Len(s)}
+FullTables == atoi(IOEnv.VT_FULLTABLES)
 \* every (processors, replacing processors) table over the rules that matter for the shape;
-\* for the largest shapes (4 objects and more): all replacement subsets with every rule
+\* for shapes with more than FullTables objects: all replacement subsets with every rule
 \* registered, and all registration subsets without replacement
 Tables(s) ==
   LET rel == RelevantRules(s) IN
-  SetToSeq(IF Len(s) <= 3
+  SetToSeq(IF Len(s) <= FullTables
            THEN {<<P, R>> \in (SUBSET rel) \X (SUBSET rel) : R \subseteq P}
            ELSE {<<rel, R>> : R \in SUBSET rel} \cup {<<P, {}>> : P \in SUBSET rel})
 
@@ -237,4 +238,7 @@ EnvMaxPostpone == atoi(IOEnv.VT_MAXPOSTPONE)
 \* initial states are exactly the scenarios
 EmitSpec == Init /\ [][FALSE]_vars
 EmitScenario == PrintT("SCEN|" \o ToJson(sc))
+\* the same from a model-checking run: TLC evaluates state constraints on the initial
+\* states before the workers start, so the lines come out one by one
+EmitInit == (pc = "construct" /\ IOEnv.VT_EMIT = "1") => PrintT("SCEN|" \o ToJson(sc))
 =============================================================================
